@@ -699,12 +699,35 @@ pub struct WithEpilogue<D> {
     polls: usize,
     pub max_polls: usize,
     pub from_step: Option<usize>,
+    /// after going idle: subscribe, publish QoS 1 and receive an inbound QoS 1 publish
+    pub round_trip: bool,
+    rt: std::collections::VecDeque<Step>,
 }
 
 impl<D> WithEpilogue<D> {
     pub fn new(inner: D, max_polls: usize) -> Self {
-        WithEpilogue { inner, stage: 0, polls: 0, max_polls, from_step: None }
+        WithEpilogue { inner, stage: 0, polls: 0, max_polls, from_step: None, round_trip: false, rt: Default::default() }
     }
+}
+
+pub const RT_TOPIC: &str = "u";
+pub const RT_PID: u16 = 61234;
+
+fn round_trip_steps() -> Vec<Step> {
+    let p = || Step::Poll { max_wait: 0, cancel_at: None };
+    vec![
+        Step::Subscribe(SubSpec { filters: vec![FilterSpec { filter: RT_TOPIC.into(), max_qos: 1, no_local: false, rap: false, rh: 0 }], props: vec![], cancel_at: None }),
+        p(),
+        p(),
+        Step::Publish(PubSpec { topic: RT_TOPIC.into(), payload: PayloadSpec::Bytes(vec![0x5a]), qos: 1, retain: false, props: vec![], correlate: None, cancel_at: None }),
+        p(),
+        p(),
+        Step::Broker(BrokerAct::Send(SPacket::Publish { dup: false, qos: 1, retain: false, topic: RT_TOPIC.into(), pid: Some(RT_PID), props: vec![], payload: vec![0xa5] })),
+        p(),
+        p(),
+        p(),
+        Step::Drive { cancel_at: None },
+    ]
 }
 
 pub fn benign_connect(resume: bool) -> ConnectSpec {
@@ -762,7 +785,15 @@ impl<D: Driver> Driver for WithEpilogue<D> {
                 }
                 4 => {
                     self.stage = 5;
+                    if self.round_trip {
+                        self.rt = round_trip_steps().into();
+                        self.stage = 6;
+                    }
                 }
+                6 => match self.rt.pop_front() {
+                    Some(s) if v.has_handle => return Some(s),
+                    _ => self.stage = 5,
+                },
                 _ => return None,
             }
         }
